@@ -8,8 +8,29 @@ def has_array_param(stmts):
     return any(s["k"] == "def" and (any(t[0] == "arr" for _, t in s["params"]) or has_array_param(s["body"])) for s in stmts)
 
 
+def call_argument_mismatch(mir):
+    """a NadaFunctionCall whose argument's recorded type differs from the callee's declared parameter type"""
+    tables = [mir["operations"]] + [f["operations"] for f in mir["functions"]]
+    funs = {f["id"]: f for f in mir["functions"]}
+    for t in tables:
+        for op in t.values():
+            c = op.get("NadaFunctionCall") if isinstance(op, dict) else None
+            if not c or c["function_id"] not in funs:
+                continue
+            params = funs[c["function_id"]]["args"]
+            for a, prm in zip(c["args"], params):
+                src = t.get(str(a)) or t.get(a)
+                if src:
+                    (_, body), = src.items()
+                    if body.get("type") != prm["type"]:
+                        return True
+    return False
+
+
 def key_of(prog, mir):
     shapes = mp.scan_types(mir)
+    if not shapes and "untruthful-annotation" in (prog.get("tags") or []) and call_argument_mismatch(mir):
+        return "C05/edge:call-argument-type-differs-from-parameter"
     if mp.captures_enclosing_param(prog["stmts"]) and not shapes:
         return "C05/scope:param-of-enclosing-fn"
     if shapes and shapes <= {"param:array-no-size", "array-no-size"} and has_array_param(prog["stmts"]):
